@@ -174,6 +174,9 @@ func (e *Engine) exec(g *G, f *Frame, instr ssa.Instruction) {
 		v := e.get(f, in.X).(*Iface)
 		e.lastStack = e.stack()
 		g.panicking = &PanicV{V: v, Msg: e.panicMsg(v)}
+		if len(e.lastStack) > 0 {
+			e.ghostLog = append(e.ghostLog, "panic: "+g.panicking.Msg+" at "+e.lastStack[0])
+		}
 	case *ssa.RunDefers:
 		if len(f.defers) > 0 {
 			d := f.defers[len(f.defers)-1]
